@@ -63,6 +63,13 @@ def regen():
         return False, out.strip()
     if rc != 0:
         raise Infra(f'translator crashed rc={rc}: {err[-2000:]}')
+    # static effect table (C09), regenerated from the same working tree
+    rc2, out2, err2 = run(['python3', os.path.join(VERIF, 'translator', 'effects.py'), '--repo', REPO, '--out',
+                           os.path.join(LEAN, 'GeodeVerif', 'GenF', 'Effects.lean')], timeout=300)
+    if rc2 == 3:
+        return False, (out2 + err2).strip()[-600:]
+    if rc2 != 0:
+        raise Infra(f'effects.py crashed rc={rc2}: {err2[-2000:]}')
     return True, out.strip()
 
 
@@ -98,7 +105,8 @@ def parse_build_errors(text):
     return errs
 
 
-AUDIT_TMPL = '''import {module}
+AUDIT_TMPL = '''import Lean
+import {module}
 open Lean Elab Command in
 run_cmd do
   let env ← getEnv
@@ -278,6 +286,7 @@ def check_property(pid, tier_):
             broken.append({'kind': 'tie', 'what': f"{d['function']}{d['args']}: impl={d['impl'][:80]} model={d['model'][:80]} ({d['diff']})", **d})
     # hand-model correspondence (model driver implemented by the property's own script)
     corr_rep = None
+    corr_violations = []
     if P.get('correspondence'):
         outp = os.path.join(WORK, f'corr_{pid}_{os.getpid()}.json')
         cmd = [PY, os.path.join(VERIF, 'harness', P['correspondence']), '--out', outp]
@@ -285,6 +294,7 @@ def check_property(pid, tier_):
         os.remove(outp)
         for d in corr_rep.get('disagreements', [])[:5]:
             broken.append({'kind': 'correspondence', 'what': d.get('what', str(d))[:300], **{k: v for k, v in d.items() if k != 'what'}})
+        corr_violations = corr_rep.get('violations', [])
 
     # 5. SEARCH on the real implementation
     search_rep = {'evaluations': 0, 'violations': [], 'samples': [], 'stats': {}}
@@ -304,7 +314,7 @@ def check_property(pid, tier_):
     known = [k for k in load_known() if k.get('property') == pid and k.get('status', 'open') == 'open']
     new_violations = []
     known_hit = {}
-    for v in search_rep.get('violations', []):
+    for v in list(search_rep.get('violations', [])) + list(corr_violations):
         key = v.get('key', '')
         match = None
         for k in known:
